@@ -536,7 +536,10 @@ func c06Fallback(p *Program, r *Report) {
 		}
 		encBlocks = append(encBlocks, f.Blocks...)
 	}
-	for _, f := range reachFrom(decEntry) {
+	// the wire-level test is made while the header is decoded (decodeSegmentHeader and whatever it
+	// delegates to); later tests of the normalised fields are internal bookkeeping
+	_ = decEntry
+	for _, f := range reachFrom(ssaMethod(p, "segment", "codec", "decodeSegmentHeader")) {
 		decBlocks = append(decBlocks, f.Blocks...)
 	}
 	for _, b := range encBlocks {
